@@ -71,14 +71,14 @@ theorem imul_no_internal (l : Bits) (n : Int) : isInternal (pubImul l n) = false
 
 theorem insert_no_internal (l b : Bits) (pos : Int) : isInternal (pubInsert l b pos) = false := by
   unfold pubInsert
-  by_cases h1 : b.length = 0
-  · rw [if_pos h1]; rfl
-  · rw [if_neg h1]
-    dsimp only
-    generalize (if pos < 0 then pos + (l.length : Int) else pos) = p
-    by_cases h2 : 0 ≤ p ∧ p ≤ l.length
-    · rw [if_neg (not_not_intro h2)]; exact insertH_ni l b p h2
-    · rw [if_pos h2]; rfl
+  dsimp only
+  generalize (if pos < 0 then pos + (l.length : Int) else pos) = p
+  by_cases h2 : 0 ≤ p ∧ p ≤ l.length
+  · rw [if_neg (not_not_intro h2)]
+    by_cases h1 : b.length = 0
+    · rw [if_pos h1]; rfl
+    · rw [if_neg h1]; exact insertH_ni l b p h2
+  · rw [if_pos h2]; rfl
 
 /-- including `a.overwrite(a, pos)` with any `pos`. -/
 theorem overwrite_no_internal (l b : Bits) (pos : Int) (same : Bool) :
@@ -86,13 +86,13 @@ theorem overwrite_no_internal (l b : Bits) (pos : Int) (same : Bool) :
   unfold pubOverwrite
   dsimp only
   generalize (if same = true then l else b) = b'
-  by_cases h1 : b'.length = 0
-  · rw [if_pos h1]; rfl
-  · rw [if_neg h1]
-    generalize (if pos < 0 then pos + (l.length : Int) else pos) = p
-    by_cases h2 : p < 0 ∨ p > l.length
-    · rw [if_pos h2]; rfl
-    · rw [if_neg h2]
+  generalize (if pos < 0 then pos + (l.length : Int) else pos) = p
+  by_cases h2 : p < 0 ∨ p > l.length
+  · rw [if_pos h2]; rfl
+  · rw [if_neg h2]
+    by_cases h1 : b'.length = 0
+    · rw [if_pos h1]; rfl
+    · rw [if_neg h1]
       unfold overwriteH
       rw [check_of _ (by omega)]
       rfl
@@ -217,27 +217,23 @@ theorem lshift_err_iff (l : Bits) (n : Int) :
 theorem insert_err_iff (l b : Bits) (pos : Int) :
     pubInsert l b pos = .error .value ↔ (pos < -(l.length : Int) ∨ (l.length : Int) < pos) := by
   unfold pubInsert
-  by_cases h1 : b.length = 0
-  · rw [if_pos h1]
+  dsimp only
+  by_cases h2 : 0 ≤ (if pos < 0 then pos + (l.length : Int) else pos) ∧
+      (if pos < 0 then pos + (l.length : Int) else pos) ≤ l.length
+  · rw [if_neg (not_not_intro h2)]
+    have hr : pos < -(l.length : Int) ∨ (l.length : Int) < pos → False := by
+      intro h
+      split at h2 <;> omega
+    by_cases h1 : b.length = 0
+    · rw [if_pos h1]
+      exact ⟨fun h => (by cases h), fun h => (hr h).elim⟩
+    · rw [if_neg h1, insertH_ok l b _ h2]
+      exact ⟨fun h => (by cases h), fun h => (hr h).elim⟩
+  · rw [if_pos h2]
     constructor
-    · intro h; cases h
-    · intro h; exact absurd (List.length_eq_zero_iff.mp h1) h.1
-  · rw [if_neg h1]
-    have hb : b ≠ [] := fun h => h1 (by rw [h]; rfl)
-    dsimp only
-    by_cases h2 : 0 ≤ (if pos < 0 then pos + (l.length : Int) else pos) ∧
-        (if pos < 0 then pos + (l.length : Int) else pos) ≤ l.length
-    · rw [if_neg (not_not_intro h2), insertH_ok l b _ h2]
-      constructor
-      · intro h; cases h
-      · intro h
-        split at h2 <;> omega
-    · rw [if_pos h2]
-      constructor
-      · intro _
-        refine ⟨hb, ?_⟩
-        split at h2 <;> omega
-      · intro _; rfl
+    · intro _
+      split at h2 <;> omega
+    · intro _; rfl
 
 theorem validateSlice_ok_iff (len : Nat) (s e : Option Int) :
     (∃ r, validateSlice len s e = .ok r) ↔
